@@ -155,4 +155,41 @@ def run(ctx, rep):
             rep.ob("is-optional-atoms", "truth-table", ok, f"{len(paths)} paths; {why}", io.file, io.line)
         except decide.NotLoopFree as e:
             rep.ob("is-optional-atoms", "truth-table", False, f"is_optional is no longer loop-free: {e}", io.file, io.line)
+    _thin_member_modifiers(rep, P, F)
     rep.assume("the transitive closure over reference graphs is input-dependent: not decided")
+
+
+def _thin_member_modifiers(rep, P, F):
+    """The files a thin archive refers to are opened as inputs of their own; is_optional() reads each member's *own* modifiers. A member is inside a whole-archive
+    region iff its archive is, so the member's whole_archive flag (and as_needed / allow_shared) must be copied from the archive's modifiers; only
+    archive_semantics is forced to true."""
+    from mir import place_chain, op_const
+    rep.rule("thin-member-modifiers", "process_thin_archive builds each member's Modifiers with archive_semantics = true and whole_archive / as_needed / allow_shared read from "
+             "the archive's own modifiers (`..input_file.modifiers`), so --whole-archive applies to thin archives as it does to regular ones")
+    b = next((x for x in F.all_bodies if x.key.endswith("input_data::process_thin_archive") and x.d["kind"] != "Closure"), None)
+    bodies = [b] if b else []
+    bodies += list(F.closures_of("libwild::input_data::process_thin_archive"))
+    n = 0
+    for body in bodies:
+        if body is None:
+            continue
+        flow = P.flow(body)
+        for blk in body.blocks:
+            if blk.get("cleanup"):
+                continue
+            for st in blk["s"]:
+                if st["k"] == "assign" and st["rv"]["k"] == "agg" and str(st["rv"].get("adt") or "").endswith("Modifiers") and st["rv"].get("fields"):
+                    n += 1
+                    fields = st["rv"]["fields"]
+                    ops = dict(zip(fields, st["rv"]["ops"]))
+                    sem = (op_const(ops.get("archive_semantics")) or {}).get("val") == 1 if ops.get("archive_semantics") and ops["archive_semantics"][0] == "k" else False
+                    inherited = {}
+                    for f in ("whole_archive", "as_needed", "allow_shared"):
+                        o = ops.get(f)
+                        inherited[f] = bool(o) and o[0] != "k" and "modifiers" in place_chain(flow, o)[0] and f in place_chain(flow, o)[0]
+                    ok = sem and all(inherited.values())
+                    rep.ob("thin-member-modifiers", f"member#{n}", ok,
+                           "archive_semantics = true; whole_archive, as_needed, allow_shared come from the archive's modifiers" if ok else
+                           f"member modifiers: archive_semantics const true = {sem}; inherited from the archive: {inherited} - a thin archive inside --whole-archive would "
+                           "load only the members something references", body.file, st.get("l"))
+    rep.floor("thin-member-modifiers", "Modifiers built in process_thin_archive", n, 1)
